@@ -42,7 +42,8 @@ if NOSUITE:
 else:
     with cf.ThreadPoolExecutor(NW) as ex:
         for o in ex.map(work, range(NW)): res.update(o)
-sh("cd /verif/checker && go build -o ../bin/pprofcheck .")
+if not os.environ.get("NOBUILD"):
+    sh("cd /verif/checker && go build -o ../bin/pprofcheck .")
 alarms = 0
 for prop, name, patch in items:
     st = res[(prop, name)]
@@ -61,5 +62,6 @@ for prop, name, patch in items:
     for l in lines[:8]: print("    " + l)
     alarms += bool(lines)
 print(f"{len(items)} refactorings, {alarms} with alarms")
-for w in range(NW): sh(f"git -C /repo worktree remove --force /tmp/wtp{w}")
-sh("git -C /repo worktree prune")
+if not NOSUITE:
+    for w in range(NW): sh(f"git -C /repo worktree remove --force /tmp/wtp{w}")
+    sh("git -C /repo worktree prune")
